@@ -5,7 +5,7 @@
 (* an arbitrary incoming message <<qt, qa>>: OnlyAddressee, SpoofIsStutter, GenuineStillAccepted, and AtMostOnce as    *)
 (* part of the invariant itself.  Obligations (bin/check C09): Init => IndInv; IndInv /\ Next => IndInv'; IndInv =>    *)
 (* Props; and the model with the address compared AFTER the entry is consumed (CompareFirst = FALSE, the defect repaired *)
-(* in 74dc0a9) fails SpoofIsStutter - the negative control.                                                            *)
+(* in 74cfd4e) fails SpoofIsStutter - the negative control.                                                            *)
 EXTENDS Integers, FiniteSets, Apalache
 CONSTANTS
   \* @type: Int;
